@@ -40,7 +40,7 @@ def merge_jobs(tier, prop="C02"):
     return js
 
 
-SUITE = {"name": "merge", "pkg": "internal/db", "files": ["zz_verif_env.go", "zz_verif_merge.go"], "common": ["intrinsics", "kvmodel"],
+SUITE = {"name": "merge", "pkg": "internal/db", "files": ["zz_verif_env.go", "zz_verif_merge.go"], "common": ["intrinsics", "kvmodel", "dagenv"],
          "jobs": merge_jobs, "overrides": OVR, "redirects": REDIR, "unwind": 40, "witnesses": {"quick": 12, "thorough": 32},
          "timeout": {"quick": 2400, "thorough": 10000}}
 
